@@ -899,9 +899,156 @@ fn run_configs(acc: &mut Acc, configs: &[(&'static str, Vec<Actor>, usize)], pro
     PROP.with(|p| p.set("C19"));
 }
 
+
+// ------------------------------------------------------------------ (e) parts of a multipart upload are writes too
+
+/// A part upload that fails or is abandoned must not take effect either: what a later completion publishes under the key is
+/// what the *successful* part uploads delivered. History: [create upload] ; [UploadPart #1 = GOOD, complete] (or not) ;
+/// UploadPart #1 = RETRY with a fault (body I/O error after k of n frames | the request future dropped after step p) ;
+/// CompleteMultipartUpload [1] ; read. With the earlier good part the object is GOOD exactly; without it the completion is
+/// refused and the key keeps its previous state (there is no part 1) - never a prefix of RETRY.
+fn part_e(acc: &mut Acc) {
+    const GOOD: &[u8] = b"GOOD-part-one-uploaded-successfully-before-the-retry";
+    #[derive(Clone, Copy, Debug)]
+    enum Fault {
+        BodyError { frames: usize, after: usize },
+        Abandon,
+    }
+    let mut faults = vec![Fault::Abandon];
+    for n in [1usize, 2, 4] {
+        for k in 0..=n {
+            faults.push(Fault::BodyError { frames: n, after: k });
+        }
+    }
+    let cases: Vec<(Fault, bool, bool)> = faults.iter().flat_map(|f| [(false, false), (false, true), (true, false), (true, true)].into_iter().map(move |(pp, po)| (*f, pp, po))).collect();
+    par_items(acc, &cases, |a, ci, (fault, prior_part, prior_object)| {
+        let sched = Sched::new();
+        let retry: Vec<u8> = content_for(2, 12_000);
+        // a fresh store with the upload created (and the good part uploaded)
+        let setup = || {
+            let st = store(*prior_object, Some(&sched));
+            let id = sched.block_on(async {
+                let up = st.fs.create_multipart_upload(req(CreateMultipartUploadInput { bucket: "bkt".into(), key: "k".into(), ..gb() }, None)).await.unwrap();
+                let id = up.output.upload_id.unwrap();
+                if *prior_part {
+                    st.fs.upload_part(req(UploadPartInput { bucket: "bkt".into(), key: "k".into(), upload_id: id.clone(), part_number: 1, body: Some(blob_of(GOOD, 1)), content_length: Some(GOOD.len() as i64), ..gb() }, None)).await.unwrap();
+                }
+                id
+            });
+            (st, id)
+        };
+        let upload_task = |st: &Store, id: &str, body: StreamingBlob| -> Task<OpResult> {
+            let fs = st.fs.clone();
+            let id = id.to_owned();
+            let len = retry.len() as i64;
+            Box::pin(async move { fs.upload_part(req(UploadPartInput { bucket: "bkt".into(), key: "k".into(), upload_id: id, part_number: 1, body: Some(body), content_length: Some(len), ..gb() }, None)).await.map(|_| ()).map_err(|e| e.code().as_str().to_owned()) })
+        };
+        let failing_blob = |frames: usize, after: usize| -> StreamingBlob {
+            let step = retry.len().div_ceil(frames);
+            let mut parts: Vec<Result<bytes::Bytes, std::io::Error>> = retry.chunks(step).take(after).map(|c| Ok(bytes::Bytes::copy_from_slice(c))).collect();
+            parts.push(Err(std::io::Error::other("connection reset by peer")));
+            StreamingBlob::wrap(futures::stream::iter(parts))
+        };
+        // the points of this fault: one for a body error, every step of the part upload for an abandoned request
+        let points: Vec<usize> = match fault {
+            Fault::BodyError { .. } => vec![0],
+            Fault::Abandon => {
+                let (st, id) = setup();
+                let mut t = upload_task(&st, &id, blob_of(&retry, 3));
+                match sched.run_to_end(&mut t, 10_000) {
+                    Some((_, n)) => (0..n).collect(),
+                    None => {
+                        a.fail("C19/write-never-completes", ci, format!("part-upload-never-completes/prior_part={prior_part}"), "UploadPart did not finish within 10000 scheduler steps".into(), json!({}));
+                        vec![]
+                    }
+                }
+            }
+        };
+        a.count(&format!("points_of_part_upload_{}", if matches!(fault, Fault::Abandon) { "abandoned" } else { "body_error" }), points.len() as u64);
+        for p in points {
+            let id_s = || format!("part-upload/{fault:?}/point={p}/prior_part={prior_part}/prior_object={prior_object}");
+            if !a.selected(&id_s) {
+                continue;
+            }
+            a.eval();
+            a.nontrivial(fnv(id_s().as_bytes()));
+            let (st, id) = setup();
+            let mut check_tmps = true;
+            match fault {
+                Fault::BodyError { frames, after } => {
+                    let mut t = upload_task(&st, &id, failing_blob(*frames, *after));
+                    match sched.run_to_end(&mut t, 10_000) {
+                        Some((Err(_), _)) => {}
+                        Some((Ok(()), _)) => {
+                            a.fail("C19/multipart/part-upload-with-a-failing-body-acknowledged", ci, id_s(), format!("UploadPart whose body failed after {after} of {frames} frames answered success"), json!({}));
+                        }
+                        None => {
+                            a.fail("C19/write-never-completes", ci, id_s(), "UploadPart did not finish".into(), json!({}));
+                            continue;
+                        }
+                    }
+                }
+                Fault::Abandon => {
+                    // (a temporary file left by a request dropped around File::create is the listed finding of part (b); here only the content is judged)
+                    check_tmps = false;
+                    let mut t = upload_task(&st, &id, blob_of(&retry, 3));
+                    let mut done = false;
+                    for _ in 0..p {
+                        if sched.step(&mut t).is_ready() {
+                            done = true;
+                            break;
+                        }
+                    }
+                    if done {
+                        continue;
+                    }
+                    {
+                        let _e = sched.rt.enter();
+                        drop(t);
+                    }
+                    sched.block_on(async { tokio::task::spawn_blocking(|| ()).await.ok() });
+                }
+            }
+            let tmps = tmp_files(&st.root);
+            let completed = sched.block_on(async { st.fs.complete_multipart_upload(req(CompleteMultipartUploadInput { bucket: "bkt".into(), key: "k".into(), upload_id: id.clone(), multipart_upload: Some(CompletedMultipartUpload { parts: Some(vec![CompletedPart { part_number: Some(1), ..gb() }]) }), ..gb() }, None)).await.map(|_| ()).map_err(|e| e.code().as_str().to_owned()) });
+            let read = later_read_with(&st.fs, Some(&sched));
+            let ctxv = json!({"fault": format!("{fault:?}"), "point": p, "earlier_good_part": prior_part, "prior_object": prior_object, "completion": format!("{completed:?}"), "read": read.as_ref().map(|b| format!("{} bytes: {:?}", b.len(), String::from_utf8_lossy(&b[..b.len().min(60)]))).unwrap_or_else(|e| format!("error {e}"))});
+            let describe = |r: &Result<Vec<u8>, String>| match r {
+                Err(e) => format!("no object ({e})"),
+                Ok(b) if b.as_slice() == GOOD => "the earlier good part".to_owned(),
+                Ok(b) if b.as_slice() == OLD => "the previous object".to_owned(),
+                Ok(b) if b.as_slice() == retry.as_slice() => "the complete bytes of the failed retry".to_owned(),
+                Ok(b) if retry.starts_with(b) => format!("a {}-byte prefix of the failed retry's {} bytes", b.len(), retry.len()),
+                Ok(b) => format!("{} other bytes", b.len()),
+            };
+            // an abandoned request may have taken effect completely (all-or-nothing): the whole retry is then part 1
+            let whole_retry = matches!(fault, Fault::Abandon) && completed.is_ok() && read.as_ref().is_ok_and(|b| b.as_slice() == retry.as_slice());
+            if whole_retry {
+                a.outcome("part upload abandoned: it had taken effect completely");
+            } else if *prior_part {
+                let ok = completed.is_ok() && read.as_ref().is_ok_and(|b| b.as_slice() == GOOD);
+                a.outcome(if ok { "part retry failed: completion publishes the earlier good part" } else { "part retry failed: THE FAILED RETRY TOOK EFFECT" });
+                if !ok {
+                    a.fail("C19/multipart/failed-part-upload-took-effect", ci * 100 + p as u64, id_s(), format!("part 1 was uploaded successfully, a second upload of part 1 failed ({fault:?}, point {p}); completion answered {completed:?} and a later read returns {}", describe(&read)), ctxv.clone());
+                }
+            } else {
+                let unchanged = if *prior_object { read.as_ref().is_ok_and(|b| b.as_slice() == OLD) } else { read.is_err() };
+                let ok = completed.is_err() && unchanged;
+                a.outcome(if ok { "only part upload failed: completion refused, key unchanged" } else { "only part upload failed: THE FAILED PART WAS ASSEMBLED" });
+                if !ok {
+                    a.fail("C19/multipart/failed-part-upload-assembled", ci * 100 + p as u64, id_s(), format!("the only upload of part 1 failed ({fault:?}, point {p}); completion answered {completed:?} and a later read returns {}", describe(&read)), ctxv.clone());
+                }
+            }
+            if check_tmps && !tmps.is_empty() {
+                a.fail("C19/multipart/temporary-file-left-behind-by-a-failed-part-upload", ci, id_s(), format!("after the failed part upload: {tmps:?}"), ctxv);
+            }
+        }
+    });
+}
+
 pub fn run(ctx: &Ctx) -> (Acc, Report) {
     let mut acc = ctx.acc();
-    let replay_part = ctx.replay.as_deref().map(|r| if r.starts_with("fault/") { "a" } else if r.contains("/schedule=") { "d" } else { "bc" });
+    let replay_part = ctx.replay.as_deref().map(|r| if r.starts_with("fault/") { "a" } else if r.starts_with("part-upload/") { "e" } else if r.contains("/schedule=") { "d" } else { "bc" });
     if replay_part.is_none_or(|p| p == "a") {
         part_a(&mut acc);
         part_a2(&mut acc);
@@ -912,9 +1059,12 @@ pub fn run(ctx: &Ctx) -> (Acc, Report) {
     if replay_part.is_none_or(|p| p == "d") {
         part_d(&mut acc, ctx.tier);
     }
+    if replay_part.is_none_or(|p| p == "e") {
+        part_e(&mut acc);
+    }
     let rep = Report {
         level: "fault_enumeration",
-        rule: format!("(a) PutObject through S3Service::call with s3s-fs behind it: body I/O error after k of n frames for n in {{1,2,4}}, k in 0..n; wrong and right checksum for CRC32, CRC32C, SHA-1, SHA-256; corrupted signature in chunk k of a 1-, 2-, 3-chunk chunk-signed body (incl. the final chunk); each with the key absent and present and under 3-4 transport framings (as built, an empty frame before every frame, 1-byte frames, a frame boundary right after every chunk header line); writes whose final rename / directory step fails (a directory where the object should go, a file where a directory is needed). (b) every abandon point: the request future dropped after every step p, both while the submitted file-system call is still queued and after it has completed; (c) every crash point: the tree copied after every step and restarted with FileSystem::new; for writes {:?}. (d) all interleavings at file-system-call granularity of two writers (10 B vs 9000 B) and of writer + reader; two writers + reader and three writers with at most {} preemption(s); all interleavings of two writers to different objects (same key in two buckets, same file name in two directories, two keys). Oracle: a later read returns the previous state or one complete version - content and user metadata of the same version -, the reader receives one complete version, the final content is one writer's bytes, no .tmp.* file remains. Distinct by id.", if ctx.tier == Tier::Thorough { "put x4, put+checksum+metadata, copy-object, complete-multipart (one small part with metadata; 5 MiB + 4 B)" } else { "put x3 sizes/framings, put+checksum+metadata, copy-object (content + metadata), complete-multipart (one small part, metadata from creation)" }, ctx.tier.pick(2, 3)),
+        rule: format!("(a) PutObject through S3Service::call with s3s-fs behind it: body I/O error after k of n frames for n in {{1,2,4}}, k in 0..n; wrong and right checksum for CRC32, CRC32C, SHA-1, SHA-256; corrupted signature in chunk k of a 1-, 2-, 3-chunk chunk-signed body (incl. the final chunk); each with the key absent and present and under 3-4 transport framings (as built, an empty frame before every frame, 1-byte frames, a frame boundary right after every chunk header line); writes whose final rename / directory step fails (a directory where the object should go, a file where a directory is needed). (b) every abandon point: the request future dropped after every step p, both while the submitted file-system call is still queued and after it has completed; (c) every crash point: the tree copied after every step and restarted with FileSystem::new; for writes {:?}. (d) all interleavings at file-system-call granularity of two writers (10 B vs 9000 B) and of writer + reader; two writers + reader and three writers with at most {} preemption(s); all interleavings of two writers to different objects (same key in two buckets, same file name in two directories, two keys). (e) parts of a multipart upload as writes: with and without an earlier good upload of part 1 and with the key absent and present, a (second) upload of part 1 whose body fails after k of n frames (n in {{1,2,4}}, k in 0..=n) or whose request is dropped after every step p, then CompleteMultipartUpload [1] and a read: the object is the good part exactly, or - there being no part - the completion is refused and the key unchanged (an abandoned upload may also have taken effect completely). Oracle: a later read returns the previous state or one complete version - content and user metadata of the same version -, the reader receives one complete version, the final content is one writer's bytes, no .tmp.* file remains. Distinct by id.", if ctx.tier == Tier::Thorough { "put x4, put+checksum+metadata, copy-object, complete-multipart (one small part with metadata; 5 MiB + 4 B)" } else { "put x3 sizes/framings, put+checksum+metadata, copy-object (content + metadata), complete-multipart (one small part, metadata from creation)" }, ctx.tier.pick(2, 3)),
         exhaustive: true,
         extra: json!({"granularity": "one step = one task runs from one file-system await to the next (tokio blocking pool of one thread, gated)"}),
         assumptions: vec![
